@@ -4,8 +4,9 @@ import ScVerif.C20.EnterLeave
 import ScVerif.C20.Meter
 import ScVerif.C20.MeterConc
 import ScVerif.C20.ElConc
+import ScVerif.C20.ModeFanConc
 import ScVerif.C20.Esc
-/-! Driver ops of the Mode (`mode.seq`), EnterLeave (`el.seq`) and Meter (`meter.seq`) models. -/
+/-! Driver ops of the Mode (`mode.seq`, `mode.conc`), EnterLeave (`el.seq`) and Meter (`meter.seq`) models. -/
 namespace ScVerif.C20
 open ScVerif.Line
 
@@ -61,6 +62,26 @@ def handle? (toks : List String) : Option String :=
     let modes ← parseModes? modes
     let reqs ← reqs.mapM parseReq?
     pure (runSeq modes reqs)
+  | "mode.conc" :: modes :: sched :: progs => do
+    -- progs: one token per thread, requests separated by `;`; sched: `,`-separated thread steps
+    let modes ← parseModes? modes
+    let progs ← progs.mapM (fun p => if p = "-" then some [] else (p.splitOn ";").mapM parseReq?)
+    let sched ← (if sched = "-" then some [] else (sched.splitOn ",").mapM (fun s => (parseNat? s).map Gau.Ev.step))
+    match newModelModes modes with
+    | none => pure "new:panic"
+    | some m =>
+      let c0 : Gau.Cfg Values Unit := ⟨m.values, 0, progs.map (fun p => Gau.Thread.ofCalls (p.map (requestCall modes)))⟩
+      let c1 := c0.run sched
+      let c2 := c1.run (Gau.drainSched c1.threads)
+      let showRes : Gau.Res Values Unit → String
+        | .ok _ => "ok"
+        | .err _ => "err"
+        | .aborted => "Aborted"
+      let amp (xs : List String) : String := if xs.isEmpty then "-" else "&".intercalate xs
+      let showTh (th : Gau.Thread Values Unit) : String :=
+        (if th.cur.isSome || !th.todo.isEmpty then "unfinished:" else "") ++
+        amp (th.results.reverse.map showRes) ++ ":" ++ amp (th.results.map (fun _ => "rl"))
+      pure (showValues c2.store ++ "#" ++ ";".intercalate (c2.threads.map showTh))
   | _ => none
 
 end Mode
